@@ -7,6 +7,7 @@ mod wire;
 mod s_acks;
 mod s_api;
 mod s_delivery;
+mod s_match;
 
 use vutil::{Args, Report};
 
@@ -16,6 +17,8 @@ fn scenarios(id: &str, args: &Args) -> Option<Vec<explore::Scenario>> {
         "C02" => s_delivery::c02(args),
         "C03" => s_acks::c03(args),
         "C04" => s_acks::c04(args),
+        "C16" => s_match::c16(args),
+        "C17" => s_match::c17(args),
         "C28" => s_api::c28(args),
         "C35" => s_api::c35(args),
         "C36" => s_api::c36(args),
